@@ -537,7 +537,8 @@ def run(ctx):
     short = sorted(progs, key=lambda p: len(p[0]))
     res.merge(systematic(ctx, short[:40], max_preempt=3, limit=20000, procs=procs, seconds=0.12 * ctx.budget_s))
     # no bound on preemptions (all schedules up to idle polling) for the shortest programs
-    res.merge(systematic(ctx, short[:14], max_preempt=1000, limit=40000, procs=procs, seconds=0.12 * ctx.budget_s))
+    mid = [p for p in short if 2 <= len(p[0]) <= 4][:28]
+    res.merge(systematic(ctx, mid, max_preempt=1000, limit=40000, procs=procs, seconds=0.12 * ctx.budget_s))
     res.merge(stress(ctx, 1500, 14, procs=procs))
     return res
 
